@@ -334,8 +334,8 @@ func paramIndex(fn *ssa.Function, v ssa.Value) int {
 func checkMapperAccepts(r *Run) {
 	w := r.W
 	allowed := map[string]map[string]bool{
-		"AcceptAllValidFeedbackMapper": {"%tmconsensus.HandleProposedHeaderAccepted": true, "%tmconsensus.HandleProposedHeaderAlreadyStored": true, "%tmconsensus.HandleVoteProofsAccepted": true, "%tmconsensus.HandleVoteProofsNoNewSignatures": true},
-		"DropDuplicateFeedbackMapper":  {"%tmconsensus.HandleProposedHeaderAccepted": true, "%tmconsensus.HandleVoteProofsAccepted": true},
+		"AcceptAllValidFeedbackMapper": {"%tmconsensus.HandleProposedHeaderAccepted": true, "%tmconsensus.HandleProposedHeaderAlreadyStored": true, "%tmconsensus.HandleVoteProofsAccepted": true, "%tmconsensus.HandleVoteProofsNoNewSignatures": true, "%tmconsensus.HandleVoteProofsFutureVerified": true},
+		"DropDuplicateFeedbackMapper":  {"%tmconsensus.HandleProposedHeaderAccepted": true, "%tmconsensus.HandleVoteProofsAccepted": true, "%tmconsensus.HandleVoteProofsFutureVerified": true},
 	}
 	for _, fn := range w.FuncsInPkg("tm/tmconsensus") {
 		if fn.Signature.Recv() == nil || fn.Signature.Results().Len() != 1 || TypeName(fn.Signature.Results().At(0).Type()) != "gexchange.Feedback" {
